@@ -99,10 +99,24 @@ def ref_parse(s):
                     info['sgr_then_text'] = True
                 i = n
                 continue
-            if grey is None:
-                grey = 'csi-body-bad-byte'
-            # cannot follow the library reliably beyond this point
-            return None, None, grey, info
+            if 0x20 <= ord(s[k]) <= 0x3f:
+                # a parameter byte behind an intermediate byte (`ESC[ 1m`): malformed for a terminal, read through
+                # int() by the library - debatable, not judged
+                if grey is None:
+                    grey = 'csi-parameter-after-intermediate'
+                return None, None, grey, info
+            # a character that can neither continue nor end the sequence (another ESC, a C0 control, DEL, non-ASCII):
+            # nothing was recognised, the characters so far stay in the text and the offending one is read again
+            for ch in s[i:k]:
+                text.append(ch)
+                states.append(M.freeze(st))
+            info['kept_csi'] += 1
+            info['aborted_csi'] = info.get('aborted_csi', 0) + 1
+            if pending_sgr:
+                info['sgr_then_text'] = True
+            run = 0
+            i = k
+            continue
         text.append(s[i])
         states.append(M.freeze(st))
         if pending_sgr:
